@@ -135,3 +135,48 @@ func resolveOrigin(target, baseScheme, baseHost string) (class, scheme, host str
 	}
 	return "same-site", baseScheme, baseHost
 }
+
+// resolverSelfTest checks the resolver against examples whose resolution the
+// URL standard fixes (scheme state, special-relative-or-authority state,
+// special-authority-slashes state, relative-slash state, userinfo, stripping).
+// It returns a description of the first disagreement, or "".
+func resolverSelfTest() string {
+	type tc struct{ in, base, want string }
+	cases := []tc{
+		{"", "http", "same-site"}, {"/path?q#f", "http", "same-site"}, {"path", "http", "same-site"}, {"?q=1", "http", "same-site"}, {"#frag", "http", "same-site"},
+		{"//evil.test", "http", "off-site-host"}, {"//evil.test/x", "https", "off-site-host"}, {"///evil.test", "http", "off-site-host"},
+		{"/\\evil.test", "http", "off-site-host"}, {"\\/evil.test", "http", "off-site-host"}, {"\\\\evil.test", "http", "off-site-host"},
+		{"\\evil.test", "http", "same-site"},
+		{"http://evil.test", "http", "off-site-host"}, {"HtTp://evil.test", "http", "off-site-host"},
+		{"https:evil.test", "http", "off-site-host"}, {"https:evil.test", "https", "same-site"}, {"http:evil.test", "http", "same-site"},
+		{"http:/evil.test", "http", "same-site"}, {"http:/\\evil.test", "http", "off-site-host"}, {"https:/evil.test", "http", "off-site-host"},
+		{"http://site.test/x", "http", "same-site"}, {"https://site.test/x", "http", "other-scheme"}, {"//SITE.TEST", "http", "same-site"}, {"//site.test.", "http", "same-site"},
+		{"//site.test:80/x", "http", "same-site"}, {"//site.test:x", "http", "same-site"},
+		{"//evil.test@site.test", "http", "same-site"}, {"//site.test@evil.test", "http", "off-site-host"}, {"//a:b@evil.test", "http", "off-site-host"},
+		{"javascript:alert(1)", "http", "non-http-scheme"}, {"JaVaScRiPt:alert(1)", "https", "non-http-scheme"}, {"data:text/html,x", "http", "non-http-scheme"}, {"mailto:a@b", "http", "non-http-scheme"},
+		{"\t//evil.test", "http", "off-site-host"}, {"/\t/evil.test", "http", "off-site-host"}, {"/\n/evil.test", "http", "off-site-host"}, {" //evil.test", "http", "off-site-host"}, {"\x00//evil.test", "http", "off-site-host"},
+		{"/ /evil.test", "http", "same-site"}, {"/%2f/evil.test", "http", "same-site"}, {"/.//evil.test", "http", "same-site"}, {"1http://evil.test", "http", "same-site"}, {":evil.test", "http", "same-site"},
+		{"ht\ttp://evil.test", "http", "off-site-host"}, {"//evil.test\\@site.test", "http", "off-site-host"},
+	}
+	for _, c := range cases {
+		if got, _, _ := resolveOrigin(c.in, c.base, "site.test"); got != c.want {
+			return "resolveOrigin(" + strconvQuote(c.in) + ", base " + c.base + ") = " + got + ", want " + c.want
+		}
+	}
+	return ""
+}
+
+func strconvQuote(s string) string {
+	var sb strings.Builder
+	sb.WriteByte('"')
+	for i := 0; i < len(s); i++ {
+		c := s[i]
+		if c < 0x20 || c == '"' || c == '\\' || c > 0x7e {
+			sb.WriteString("\\x" + string("0123456789abcdef"[c>>4]) + string("0123456789abcdef"[c&15]))
+		} else {
+			sb.WriteByte(c)
+		}
+	}
+	sb.WriteByte('"')
+	return sb.String()
+}
